@@ -20,7 +20,15 @@ def replay(p):
     if p.get('kind') == 'oracle' and 'edge' in p:
         import numpy as np
         import corr_edges as ce
-        e, _ = ce.build(p['edge'], p['vals'])
+        h = p.get('after_history')
+        if h:
+            e, _ = ce.build(p['edge'], h['initial_vals'])
+            getattr(e, h['call'])()
+            arr = e.vertices[h['vertex']].pose
+            np.ndarray.__setitem__(arr, slice(None), np.array(p['vals'][h['vertex']], dtype=np.float64))
+            print('history: %s(), then %s' % (h['call'], h['then']))
+        else:
+            e, _ = ce.build(p['edge'], p['vals'])
         print('analytic:', [np.asarray(J) for J in e.calc_jacobians()])
         print('numeric :', oracle_edges.num_jacobians(e))
     return 1
